@@ -580,7 +580,7 @@ func rangeGuardsNormalised(repo string) []string {
 					sizeExpr = renameIdents(def, ren)
 				}
 			}
-			guards = append(guards, fd.Name.Name+" | "+renameIdents(ifs.Cond, ren)+" | size := "+sizeExpr)
+			guards = append(guards, renameIdents(ifs.Cond, ren)+" | size := "+sizeExpr)
 			return true
 		})
 	}
